@@ -13,8 +13,9 @@ read by `ReportCell.parseCell`), or one of the four fixed lines (blank, table he
 `parseBody` folds the lines FROM THE END: rows are collected until the title line that owns them, the
 sections until the heading line that owns them; a heading line whose count is not the number of the
 sections collected under it makes the text unreadable ("whose count is right"); rows above the first
-title or sections above the first heading too. The reader is strict on every line that carries
-information and does not check the position of the four fixed lines.
+title or sections above the first heading too. `parseBody` is strict on every line that carries
+information and does not check the position of the four fixed lines; `parseBodyStrict` (what the driver
+runs on the real reports) checks in addition that the lines follow the grammar of the body exactly.
 The text of a cost is read by a parameter `readCost` (the driver instantiates it with an exact reader
 of decimal literals). Core Lean only.
 -/
@@ -136,6 +137,59 @@ def parseBody (readCost : Str → Option Rat) (lines : List Str) : Option (List 
   match lines.foldr (step readCost) (some ⟨[], [], []⟩) with
   | some ⟨[], [], bks⟩ => some bks
   | _ => none
+
+/-! ### The strict reader: `parseBody` plus the GRAMMAR of the body
+
+    body    = bucket*                      (an empty body is no line, or one blank line: `"".split("\n")`)
+    bucket  = blank heading section*
+    section = blank title blank header rule row* blank hr
+-/
+
+inductive Phase
+  | p0 | p1 | b | b1 | s1 | s2 | s3 | s4 | s5
+  deriving DecidableEq, Repr
+
+/-- One line of the grammar, read forwards. -/
+def next : Phase → Line → Option Phase
+  | .p0, .blank => some .p1
+  | .p1, .heading _ _ => some .b
+  | .b, .blank => some .b1
+  | .b1, .heading _ _ => some .b
+  | .b1, .title _ _ => some .s1
+  | .s1, .blank => some .s2
+  | .s2, .header => some .s3
+  | .s3, .rule => some .s4
+  | .s4, .row _ => some .s4
+  | .s4, .blank => some .s5
+  | .s5, .hr => some .b
+  | _, _ => none
+
+def runPhase : Phase → List Line → Option Phase
+  | ph, [] => some ph
+  | ph, k :: t =>
+    match next ph k with
+    | none => none
+    | some ph' => runPhase ph' t
+
+def accepting : Phase → Bool
+  | .p0 | .p1 | .b => true
+  | _ => false
+
+def classifyAll (readCost : Str → Option Rat) : List Str → Option (List Line)
+  | [] => some []
+  | l :: t =>
+    match classify readCost l, classifyAll readCost t with
+    | some k, some ks => some (k :: ks)
+    | _, _ => none
+
+/-- `parseBody` on a text whose lines follow the grammar; `none` otherwise. -/
+def parseBodyStrict (readCost : Str → Option Rat) (lines : List Str) : Option (List (Bucket × List Section)) :=
+  match classifyAll readCost lines with
+  | none => none
+  | some ks =>
+    match runPhase .p0 ks with
+    | none => none
+    | some ph => if accepting ph then parseBody readCost lines else none
 
 /-- `s.split("\n")`. -/
 def splitLines : Str → List Str
